@@ -3,5 +3,5 @@ CONSTANTS
   Depth = 2
 INIT Init
 NEXT Next
-INVARIANTS Laws ExportIsAdmit Export
+INVARIANTS Laws Export
 CHECK_DEADLOCK FALSE
